@@ -176,7 +176,8 @@ class Outcome:
 
 
 class Interp:
-    def __init__(self, fn_node, consts=None, maxpaths=20000, sym_attrs=(), init_env=None, hooks=None, universes=None):
+    def __init__(self, fn_node, consts=None, maxpaths=20000, sym_attrs=(), init_env=None, hooks=None, universes=None,
+                 sub_bases=(), call_syms=None, call_ctors=(), inline=None):
         """sym_attrs: attribute-text suffixes to be treated as Lin symbols (e.g. '_sz')."""
         self.fn = fn_node
         self.results = []
@@ -187,6 +188,11 @@ class Interp:
         self.hooks = hooks or {}      # call-text -> callable(interp, path, node) -> AV
         self.stmt_events = []         # (path-id unaware) list of (event, node) for callers who need effects
         self.universes = universes or {}   # string variable text -> finite list of candidate strings (feasibility filter)
+        self.sub_bases = set(sub_bases)    # subscripted bases abstracted as Ctor('sub', [base, index])
+        self.call_syms = call_syms or {}   # call text prefix -> fresh symbol name (Opq) for its result
+        self.call_ctors = set(call_ctors)  # call func texts abstracted as Ctor('call:<f>', args)
+        self.inline = inline or {}         # 'self.name' -> FunctionDef, interpreted at the call site
+        self.fresh = 0
 
     # ---- helpers
     def key(self, p, node):
@@ -204,6 +210,8 @@ class Interp:
             return Lin({}, v.v)
         if isinstance(v, Opq):
             return Lin({v.text: 1})
+        if isinstance(v, Ctor) and v.cls.startswith("attr:"):
+            return Lin({repr(v): 1})
         return None
 
     # ---- expressions: return list of (path, value)
@@ -220,6 +228,10 @@ class Interp:
             t = U(n)
             if t in p.env:
                 return [(p, p.env[t])]
+            if self.sub_bases and isinstance(n.value, (ast.Call, ast.Subscript, ast.Name)):
+                inner = self.ev(p, n.value)
+                if len(inner) == 1 and isinstance(inner[0][1], Ctor):
+                    return [(inner[0][0], Ctor("attr:" + n.attr, [inner[0][1]], {}, n))]
             if t in self.consts:
                 return [(p, Const(self.consts[t]))]
             for suf in self.sym_attrs:
@@ -261,10 +273,29 @@ class Interp:
                     lv = self.aslin(v)
                     out.append((q, Lin({k: -c for k, c in lv.terms.items()}, -lv.c) if lv else Opq(self.key(q, n))))
             return out
+        if isinstance(n, ast.Subscript) and U(n.value) in self.sub_bases and not isinstance(n.slice, ast.Slice):
+            return [(q, Ctor("sub", [Opq(U(n.value)), v], {}, n)) for q, v in self.ev(p, n.slice)]
         if isinstance(n, ast.Call):
             f = U(n.func)
             if f in self.hooks:
                 return [(p, self.hooks[f](self, p, n))]
+            if f in self.call_syms:
+                self.fresh += 1
+                return [(p, Opq("%s%d" % (self.call_syms[f], self.fresh)))]
+            if f in self.call_ctors or f in self.inline:
+                outs = [(p, [])]
+                for a in n.args:
+                    nxt = []
+                    for q, args in outs:
+                        for q2, v in self.ev(q, a):
+                            nxt.append((q2, args + [v]))
+                    outs = nxt
+                if f in self.call_ctors:
+                    return [(q, Ctor("call:" + f, args, {}, n)) for q, args in outs]
+                res = []
+                for q, args in outs:
+                    res += self.do_inline(q, f, args, n)
+                return res
             if isinstance(n.func, ast.Name) and f[:1].isupper():
                 outs = [(p, [], {})]
                 for a in n.args:
@@ -286,6 +317,30 @@ class Interp:
         if isinstance(n, ast.Compare) or isinstance(n, ast.BoolOp) or (isinstance(n, ast.UnaryOp) and isinstance(n.op, ast.Not)):
             return [(q, Const(t)) for q, t in self.cond(p, n)]
         return [(p, Opq(self.key(p, n)))]
+
+    def do_inline(self, p, f, args, node):
+        fn = self.inline[f]
+        p.env["$calls"] = tuple(p.env.get("$calls", ())) + ((f, tuple(args)),)
+        params = [a.arg for a in fn.args.args if a.arg not in ("self", "cls")]
+        env = {}
+        for k, v in zip(params, args):
+            env[k] = v
+        sub = Interp(fn, consts=self.consts, maxpaths=self.maxpaths, sym_attrs=self.sym_attrs, init_env=env,
+                     sub_bases=self.sub_bases, call_syms=self.call_syms, call_ctors=self.call_ctors)
+        sub.fresh = self.fresh + 100
+        outs = {}
+        for o in sub.run():
+            if o.kind == "return":
+                outs.setdefault(repr(o.value), o.value)
+        if not outs:
+            return [(p, Opq(self.key(p, node)))]
+        res = []
+        for i, v in enumerate(outs.values()):
+            q = p.copy() if len(outs) > 1 else p
+            if len(outs) > 1:
+                q.conds.append(("inline:%s#%d" % (f, i), True))
+            res.append((q, v))
+        return res
 
     def binop(self, p, n, l, r):
         if isinstance(l, Const) and isinstance(r, Const) and isinstance(l.v, int) and isinstance(r.v, int) and type(n.op) in ARITH:
@@ -416,8 +471,18 @@ class Interp:
         if isinstance(target, ast.Attribute):
             p.ver[t] = p.ver.get(t, 0) + 1
         if isinstance(target, (ast.Tuple, ast.List)):
-            for e in target.elts:
-                p.env[U(e)] = Opq(self.key(p, e) + "'")
+            parts = None
+            if isinstance(val, Ctor) and val.cls == "list" and len(val.args) == len(target.elts):
+                parts = val.args
+            elif isinstance(val, Const) and isinstance(val.v, (list, tuple)) and len(val.v) == len(target.elts):
+                parts = [Const(x) for x in val.v]
+            for i, e in enumerate(target.elts):
+                if parts:
+                    p.env[U(e)] = parts[i]
+                elif isinstance(val, Ctor):
+                    p.env[U(e)] = Ctor("item", [val, Const(i)], {})
+                else:
+                    p.env[U(e)] = Opq(self.key(p, e) + "'")
             return [p]
         p.env[t] = val
         return [p]
